@@ -496,7 +496,7 @@ theorem visitVarList_suffix {st st' : CState} {ds : List VarDecl} (h : visitVarL
 the value of the resources under `Spec`'s environment once the pending balances are filled in -/
 theorem resolve_sim {store : Store} {plain : VEnv} {ds : List VarDecl}
     (hpl : ∀ d ∈ ds, isPlain d = true → ∃ v, lookupVar plain d.name = some v ∧ (BVal.ofVal v).bty = d.ty.toB ∧ ValPos v)
-    {st st' : CState} (hv : visitVarList st ds = .ok st') (hidx : VarIdxOK st) (hg : Good st)
+    {st st' : CState} (hv : visitVarList st ds = .ok st') (hidx : VarIdxOK st) (hg : GoodSt st)
     {suf : List Resource} (hsuf : st'.resources = st.resources ++ suf) (hpos : TablePos st'.resources)
     {R : Resolved} {V : List BVal} {env : VEnv} {b : Bool} (hi : RInv store st.resources st.varIdx R.vals R.unresolved V env b) :
     match resolveVars store plain ds env with
@@ -520,8 +520,8 @@ theorem resolve_sim {store : Store} {plain : VEnv} {ds : List VarDecl}
     · rename_i st1 h1
       obtain ⟨hfresh, st0, r, he, hst1, ho⟩ := visitVar_cases h1
       obtain ⟨lits, elits, hlits⟩ := he.res
-      have hg0 : Good st0 := he.good hg
-      have hg1 : Good st1 := visitVar_good hg h1
+      have hg0 : GoodSt st0 := he.good hg
+      have hg1 : GoodSt st1 := visitVar_good hg h1
       have hidx1 : VarIdxOK st1 := visitVar_idxOK hidx h1
       have hres1 : st1.resources = st0.resources ++ [r] := by rw [hst1]
       have hvi1 : st1.varIdx = st.varIdx ++ [(d.name, st0.resources.length)] := by rw [hst1, ← he.vars]
